@@ -2,13 +2,13 @@
 # Builds: cd /verif/lean && lake build BV.Props.C01MetaBlockFull bvdrive ; cd /verif/harness && cargo build --release --offline
 PROPS["C01"]["lean_modules"] = PROPS["C01"]["lean_modules"] + ["BV.Props.C01MetaBlockFull"]
 PROPS["C01"]["level_text"] += (
-    " THIRD MODULE (BV.Props.C01MetaBlockFull, in progress): the general writer BrotliStoreMetaBlock (quality >= 4) is inside the model"
+    " THIRD MODULE (BV.Props.C01MetaBlockFull): the general writer BrotliStoreMetaBlock (quality >= 4) is inside the model"
     " (BV/Model/MetaBlockFull.lean: block-split codes and block switches, StoreTrivialContextMap, EncodeContextMap with MoveToFrontTransform and RunLengthCodeZeros,"
     " BlockEncoder entropy codes, literal contexts with the two lookup tables generated from constants.rs, distance contexts; the MetaBlockSplit is INPUT)"
     " together with the GENERAL RFC 7932 reader (NBLTYPES >= 1 with type/count codes and the second-to-last / last+1 rule, context modes, context maps with RLEMAX and inverse move-to-front, NTREES codes, block switches in the command loop)."
-    " Proved so far: context_map_roundtrip - for every context map of 1..2^24 entries < num_clusters <= 256, behind any prefix and before any suffix, EncodeContextMap does not panic and the section 7.3 reader returns exactly (num_clusters, map)"
+    " Proved: context_map_roundtrip - for every context map of 1..2^24 entries < num_clusters <= 256, behind any prefix and before any suffix, EncodeContextMap does not panic and the section 7.3 reader returns exactly (num_clusters, map)"
     " (mtf_inverse_roundtrip: MoveToFrontTransform is undone by the inverse transform; rle_zero_runs_roundtrip: RunLengthCodeZeros is undone by the reader's run expansion for every run length and every max_run_length_prefix 0..6; the symbol code through C17)."
-    " Not yet proved (exercised only): block_switch_roundtrip, full_metablock_roundtrip, wmbi_full_roundtrip."
+    " block_switch_roundtrip (block-split code + every block switch read back), full_metablock_roundtrip (BrotliStoreMetaBlock under the general reader for every well-formed MetaBlockSplit: hypotheses MBOK + Covers) and wmbi_full_roundtrip (with the stored fallback of WriteMetaBlockInternal) are proved; for the greedy builder the well-formedness hypothesis is itself a theorem (BV.Props.C01Greedy, session 4)."
 )
 PROPS["C01"]["level_note"] += (
     " Third module: the model of BrotliStoreMetaBlock is tied to the code bit-exactly on ~1.7k calls per quick run with MetaBlockSplits built by the real BrotliBuildMetaBlockGreedy (+BrotliOptimizeHistograms) and generated ones"
